@@ -101,6 +101,8 @@ class CallGraph:
                 if name in g.nested:
                     return [g.nested[name].key]
                 g = g.parent
+            if prog.shadowed(f, name):
+                return []  # a callback parameter
             tgt = prog.resolve_name(f.module, name)
             if tgt is None and name in prog.funcs and prog.funcs[name].cls is None:
                 # function-local import
